@@ -24,7 +24,8 @@
 //   E    Delegator switched to aggressive (endgame) mode
 //   F:i  piece i passed its hash check     DC:p  choked bucket dropped by its timer
 //   DU:p:n first n unordered dropped by timer     ST:p:t stall tick (t=1: current transfer stalled too)
-//   Z:p:<u>:<q>/<u>/<s>/<c>/<t>  private snapshot of p's RequestList (entries i.o.v.s ; '.' separated, ';' between)
+//   LI:p interest dropped (nothing to request)   QC:p / QU:p own download choke queue choked / unchoked the connection
+//   Z:p:<u>:<q>/<u>/<s>/<c>/<t>/<dint><dq>  private snapshot of p's RequestList (entries i.o.v.s ; '.' separated, ';' between)
 //   Y:<aggr>:<active pieces a.b.c>:<completed bits>  private snapshot of Delegator / completed set
 #include "config.h"
 
@@ -63,6 +64,7 @@ struct Ent { uint32_t i, o; bool valid; uint32_t stall; };
 struct Snap {
   bool present = false;
   bool unchoked = false;
+  bool dint = false, dq = false;   // m_down_interested, m_down_choke.queued()
   std::vector<Ent> b[4];
   bool has_t = false;
   Ent t{};
@@ -75,6 +77,7 @@ struct Snap {
       s << "/";
     }
     if (has_t) s << t.i << "." << t.o << "." << (t.valid ? 1 : 0) << "." << (t.stall ? 1 : 0);
+    s << "/" << (dint ? 1 : 0) << (dq ? 1 : 0);
     return s.str();
   }
 };
@@ -91,6 +94,7 @@ struct ScriptPeer {
   Snap last;                    // snapshot before the current op
   std::string last_emitted;     // last Z string emitted
   uint32_t conn_no = 0;
+  bool fresh = false;           // joined in this step: no previous snapshot of this connection
   bool nq_update = false;       // update_interested re-marked interest while the peer had us unchoked, without queueing
 };
 
@@ -135,6 +139,8 @@ Snap take_snap(Case& c, int p) {
   if (pcb == nullptr) return s;
   s.present = true;
   s.unchoked = pcb->m_down_unchoked;
+  s.dint = pcb->m_down_interested;
+  s.dq = pcb->m_down_choke.queued();
   auto& q = pcb->m_request_list.m_queues;
   for (int k = 0; k < 4; k++)
     for (auto it = q.begin(k); it != q.end(k); ++it) s.b[k].push_back(ent_of(*it));
@@ -278,6 +284,18 @@ void after_op(Case& c, const std::string& injected, bool timed) {
   }
   std::vector<std::string> sent;
   collect(c, sent);
+  // changes of the internal interest flag that no injected event explains (placed after the REQUESTs of this step:
+  // the delegate relation is then evaluated on the state that includes every request of the step)
+  for (int p = 0; p < 4; p++) {
+    const Snap& a = c.peer[p].last;
+    const Snap& b = snaps[p];
+    if (!a.present || !b.present || c.peer[p].fresh) { c.peer[p].fresh = false; continue; }
+    std::string ps = std::to_string(p);
+    bool explained = injected.rfind("W:", 0) == 0 || injected.rfind("H:" + ps + ":", 0) == 0;
+    bool was = a.dint || injected.rfind("W:", 0) == 0;   // update_interested raises the flag of every connection first
+    if (was && !b.dint) sent.push_back((b.dq ? "QC:" : "LI:") + ps);
+    else if (!a.dint && b.dint && !explained) sent.push_back("QU:" + ps);
+  }
   bool any = !injected.empty() || !timers.empty() || !tail.empty() || !sent.empty();
   if (any) {
     flush_quiet(c);
@@ -399,6 +417,7 @@ bool do_op(Case& c, const std::string& o, std::string& err) {
     }
     sp.bits = full;
     sp.choking = true;
+    sp.fresh = true;
     after_op(c, "J:" + ps + ":" + full, false);
     return true;
   }
